@@ -364,3 +364,24 @@ Example C07_vaccine_example :
   vhandler [EdgeLocus 3 1; NodeLocus 1] 0 (VInfect 1 1 (1#4) 2 3) 1 (EE 0 1) [[EE 0 1]; [EN 1]; []; []] w = (pop_gate w, []) /\
   getc (cw_st (vw_base (fst (vhandler [EdgeLocus 3 1; NodeLocus 1] 0 (VInfect 1 0 (1#4) 2 3) 1 (EE 0 1) [[EE 0 1]; [EN 1]; []; []] w)))) 0%Z = Some 1%Z.
 Proof. vm_compute. repeat split; reflexivity. Qed.
+
+(* ---- tie A for the event functions: the programs that harness/evsrc.py regenerates from the Python
+   source on every run (Model/EvProg.v) are, as far as compartments, loci and posted events go, the
+   event functions `handler h` that the tables above are built from.  The per-run obligation
+   `summarise_comp src = Some (comp_part h)` for every registered event function of every shipped
+   model is what instantiates this theorem (Generated EvSrc_comp_<model>.v). *)
+From EpyV Require Import Model.EvProg Proofs.EvProg.
+Theorem C07_event_functions_from_source : forall p cs, summarise_comp p = Some cs ->
+  forall h, comp_part h = cs -> h <> HObs ->
+  forall tbl off t e kloci w,
+    cw_st (fst (interp tbl off p t e kloci w)) = cw_st (fst (handler tbl off h t e kloci w)) /\
+    snd (interp tbl off p t e kloci w) = snd (handler tbl off h t e kloci w).
+Proof. exact summarise_comp_sound. Qed.
+
+Example C07_event_functions_example :
+  summarise_comp (PEdge [SUnpack; SChange 2; SMarkOcc true; SMarkHit true; SUnpack; SSetAttr; SPost (3 # 2) 1%nat])
+  = Some (comp_part (HLeft 2 true (Some (3 # 2, 1%nat))))
+  /\ summarise_comp (PEdge [SChange 2]) = None                    (* n used before it is bound *)
+  /\ summarise_comp (PEdge [SUnpack; SChange 2; SChange 3]) = None (* two compartment changes *)
+  /\ summarise_comp (PNode [SChange 3]) = Some (CNode 3).
+Proof. repeat split; vm_compute; reflexivity. Qed.
